@@ -472,16 +472,16 @@ def observe(schema, H, r):
     c = schema.classes[H["class"]]
     m = r.m
     flags = [lib.cbool(m.is_set(f.name)) for f in c.fields]
-    try:
-        b = lib.cb(bytes(m))
-    except Exception:  # noqa
-        b = "(CE EOther)"
-    reads = []
+    reads = []   # before bytes(): the value a read returns is snapshotted as it is at that moment (bytes() walks into children)
     for f in c.fields:
         try:
             reads.append(f"(cv_of_pv {msggen.pv_literal(schema, getattr(m, f.name))})")
         except AttributeError:
             reads.append("(CE EOther)")
+    try:
+        b = lib.cb(bytes(m))
+    except Exception:  # noqa
+        b = "(CE EOther)"
     return f"(CL [cv_of_obj {r.snapshot}; {b}; CL [{'; '.join(flags)}]; CL [{'; '.join(reads)}]])"
 
 
@@ -699,7 +699,8 @@ def build_ref(schema, tag):
             e.value.add(name=f"E{i}_{n}", number=v)
     for c in schema.classes:
         d = fdp.message_type.add(name=c.name)
-        for g in range(c.ngroups):
+        used = sorted({f.group for f in c.fields if f.group is not None})   # a oneof without members cannot be declared
+        for g in used:
             d.oneof_decl.add(name=f"g{g}")
         nsynth = 0
         for f in c.fields:
@@ -721,12 +722,12 @@ def build_ref(schema, tag):
             else:
                 fd.type, fd.type_name = T.TYPE_MESSAGE, ".google.protobuf.Duration"
             if f.group is not None:
-                fd.oneof_index = f.group
+                fd.oneof_index = used.index(f.group)
         for fd, f in zip(d.field, [f for f in c.fields if f.card != "map"]):
             if f.card == "optional":
                 fd.proto3_optional = True
                 d.oneof_decl.add(name=f"_{f.name}")
-                fd.oneof_index = c.ngroups + nsynth
+                fd.oneof_index = len(used) + nsynth
                 nsynth += 1
     pool.Add(fdp)
     return {c.name: message_factory.GetMessageClass(pool.FindMessageTypeByName(f"{tag}.{c.name}")) for c in schema.classes}
@@ -765,7 +766,7 @@ def t3_compare(ctx, schema, ci, refs, bs, source):
                 ctx.fail("oracle", f"after decoding, {pc} field {f.name} is reported set = {got} but the reference's HasField = {want}",
                          cls=None, input=inp)
     for g in range(c.ngroups):
-        want = ref.WhichOneof(f"g{g}") or ""
+        want = (ref.WhichOneof(f"g{g}") or "") if any(f.group == g for f in c.fields) else ""
         if recs is not None and all(r[1] != 3 for r in recs) and last_member(c, g, recs) != want:
             ctx.fail("corr", f"broken spec: last_member(g{g}) = {last_member(c, g, recs)!r} but reference WhichOneof = {want!r}", input=inp,
                      theorem_or_correspondence="T3 Spec/C06Wire.last_member <-> google.protobuf WhichOneof")
